@@ -26,6 +26,23 @@ def repo_hist_columns():
     return FileListColumn
 
 
+class FlakyRead:
+    """Wraps a backend: ONE download of a snapshot object returns a truncated copy (a transient bad read)."""
+
+    def __init__(self, inner, rng):
+        self.inner, self.rng, self.armed, self.hit = inner, rng, True, None
+
+    def __getattr__(self, name):
+        return getattr(self.inner, name)
+
+    def download(self, name):
+        data = self.inner.download(name)
+        if self.armed and name.startswith('snapshots/') and self.rng.random() < 0.5:
+            self.armed, self.hit = False, name
+            return data[:max(1, len(data) // 2)]
+        return data
+
+
 class Killed(Exception):
     """Simulated death of the process: raised by every backend call from the crash point on."""
 
@@ -129,6 +146,8 @@ class World:
         self.nfiles = 0
         self.setup_log = []
         self.orphans = {}        # location -> (fam, digest id) of chunks uploaded by interrupted snapshots
+        self.long_lived = False
+        self._repos = {}
 
     # -- helpers
     def did(self, digest):
@@ -138,6 +157,13 @@ class World:
         return self.Repository(backend or self.backend, concurrent=self.concurrent, quiet=True, cache_directory=cache)
 
     async def unlocked(self, user, backend=None, cache=None):
+        # library use: one long-lived Repository object per user (the CLI makes a fresh one per command)
+        if getattr(self, 'long_lived', False) and backend is None and cache is None:
+            if user['name'] not in self._repos:
+                r = self.repo()
+                await r.unlock(password=user['password'], key=user['key'])
+                self._repos[user['name']] = r
+            return self._repos[user['name']]
         r = self.repo(backend, cache)
         await r.unlock(password=user['password'], key=user['key'])
         return r
@@ -150,7 +176,7 @@ class World:
             settings['encryption'] = {'cipher': {'name': self.rng.choice(['aes_gcm', 'chacha20_poly1305'])}, 'kdf': dict(KDF)}
         else:
             settings['encryption'] = None
-        pw = b'pw0' if self.encrypted else None
+        pw = (b'pw0' if self.rng.random() < 0.6 else b'L' * 70 + b'pw0') if self.encrypted else None
         init = await r.init(password=pw, settings=settings)
         self.users.append({'name': 'u0', 'password': pw, 'key': init.key, 'fam': 0, 'uid': 0, 'how': 'init'})
         nfam = 1
@@ -163,13 +189,13 @@ class World:
             kset = {'encryption': {'kdf': dict(KDF)}}
             if how == 'independent':
                 rr = self.repo()
-                newpw = f'pw{i}'.encode()
+                newpw = f'pw{i}'.encode() if self.rng.random() < 0.6 else b'L' * 70 + f'pw{i}'.encode()
                 res = await rr.add_key(password=newpw, settings=kset, shared=False)
                 self.users.append({'name': f'u{i}', 'password': newpw, 'key': res.new_key, 'fam': nfam, 'uid': i, 'how': how})
                 nfam += 1
             else:
                 rr = await self.unlocked(src)
-                newpw = src['password'] if how == 'clone' else f'pw{i}'.encode()
+                newpw = src['password'] if how == 'clone' else (f'pw{i}'.encode() if self.rng.random() < 0.6 else b'L' * 70 + f'pw{i}'.encode())
                 res = await rr.add_key(password=newpw, settings=kset, shared=True)
                 self.users.append({'name': f'u{i}', 'password': newpw, 'key': res.new_key, 'fam': src['fam'], 'uid': i,
                                    'how': how, 'src': src['name']})
@@ -337,6 +363,7 @@ def run_history(seed, scratch: Path, rep: Report, *, nops, weights, checks, conc
         encrypted = rng.random() < 0.75
     world = World(seed, encrypted, scratch, concurrent=concurrent, delay=delay, nusers=rng.choice([2, 3, 4]),
                   chunking=rng.choice([(16, 64), (8, 32), (32, 96)]))
+    world.long_lived = rng.random() < 0.3
     segments = [[([], []), [], []]]      # [store0, model ops, observations]
     descr = []
     ops_model, observed = segments[0][1], segments[0][2]
@@ -417,10 +444,34 @@ def run_history(seed, scratch: Path, rep: Report, *, nops, weights, checks, conc
                 if ok != should:
                     viol('unlock', 'a key was %s by %s password' % ('unlocked' if ok else 'not unlocked', 'another' if not should else 'its own'),
                          {'key_of': ku['name'], 'password_of': pu['name']})
+        # a user KDF other than the default: a key made with it must also open with its own password only,
+        # including passwords that differ from the right one only after a long common head
+        for kdf in ({'name': 'blake2b'}, {'name': 'scrypt', 'n': 4, 'r': 1, 'p': 1}):
+            for pw_ in (b'short-pw', b'H' * 64 + b'tail-one', b'H' * 100):
+                try:
+                    src_ = world.users[0]
+                    rr = await world.unlocked(src_)
+                    res = await rr.add_key(password=pw_, settings={'encryption': {'kdf': dict(kdf)}}, shared=rng.random() < 0.5)
+                except Exception:
+                    continue                      # this KDF does not accept such a password: nothing was produced
+                for bad in (pw_[:-1], pw_ + b'x', pw_[:64] + b'tail-two', pw_[:64], b'H' * 99 + b'I'):
+                    if bad == pw_:
+                        continue
+                    try:
+                        await world.repo().unlock(password=bad, key=res.new_key)
+                        viol('unlock', 'a key was unlocked by a wrong password', {'kdf': kdf['name'], 'password_len': len(pw_), 'wrong_len': len(bad)})
+                    except Exception:
+                        pass
+                try:
+                    await world.repo().unlock(password=pw_, key=res.new_key)
+                except Exception as e:
+                    viol('unlock', f'a key was not unlocked by its own password ({type(e).__name__})', {'kdf': kdf['name'], 'password_len': len(pw_)})
         # a key of the right user but mangled password
         u = rng.choice([u for u in world.users if u['key'] is not None] or [None])
         if u is not None:
-            for bad in (u['password'] + b'x', u['password'][:-1], b''):
+            for bad in (u['password'] + b'x', u['password'][:-1], b'', u['password'][:64]):
+                if bad == u['password']:
+                    continue
                 try:
                     await world.repo().unlock(password=bad, key=u['key'])
                     viol('unlock', 'a key was unlocked by a wrong password', {'key_of': u['name']})
@@ -515,6 +566,33 @@ def run_history(seed, scratch: Path, rep: Report, *, nops, weights, checks, conc
                 await observe_access(user)
                 descr.append(['observe', user['name']])
                 continue
+            elif kind == 'flaky_gc':
+                # delete or clean while ONE read of a snapshot object comes back truncated: the command may fail
+                # (then nothing may have changed) or succeed; it must never proceed on a partial view
+                fb = FlakyRead(world.backend, rng)
+                what = 'clean' if not own or rng.random() < 0.5 else 'delete'
+                names = rng.sample(own, 1) if what == 'delete' else []
+                try:
+                    if what == 'clean':
+                        await world.clean(user, backend=fb)
+                    else:
+                        await world.delete(user, names, backend=fb)
+                    failed = False
+                except Exception:
+                    failed = True
+                descr.append(['gc-with-one-bad-snapshot-read', user['name'], what, 'failed' if failed else 'completed', bool(fb.hit)])
+                if failed:
+                    if world.backend.objects != before_objects:
+                        viol('failed_gc_mutated', f'{what} failed on a corrupted snapshot read but had already changed the repository')
+                    continue
+                if fb.hit is not None:
+                    # it completed although one snapshot could not be read: only acceptable if nothing referenced was lost
+                    pass
+                if what == 'clean':
+                    ops_model.append(('clean', user['fam']))
+                else:
+                    ops_model.append(('del', user['uid'], user['fam'], [world.snaps[n]['sid'] for n in names]))
+                kind = what
             elif kind == 'clean':
                 await cmd(world.clean(user), 'clean')
                 descr.append(['clean', user['name']])
@@ -595,6 +673,7 @@ def run_history(seed, scratch: Path, rep: Report, *, nops, weights, checks, conc
     with quiet()[0], quiet()[1]:
         world = asyncio.run(go())
     rep.count('encrypted' if encrypted else 'unencrypted')
+    rep.count('long_lived_repository_objects' if world.long_lived else 'fresh_repository_per_command')
     for d in descr:
         rep.count('op=' + d[0])
     rep.count('users=%d' % len(world.users))
